@@ -415,9 +415,14 @@ RS(n, p) ==
                                   \o Ch(n.iter, "iter", TUPLE) \o RBody(n.body, p, "body")
                                   \o (IF n.orelse = <<>> THEN <<>> ELSE <<T("else")>> \o RBody(n.orelse, p, "orelse")))
      [] n.k \in {"With", "AsyncWith"} -> compound((IF n.k = "AsyncWith" THEN <<T("async")>> ELSE <<>>) \o <<T("with")>>
+                                  \* the items may stand in one pair of parentheses (parItems); an item's extent is its expression and target
+                                  \o (IF n.parItems THEN <<T("(")>> ELSE <<>>)
                                   \o Commas([j \in 1..Len(n.items) |->
-                                        R(n.items[j].context_expr, p \o <<"items", j, "context_expr">>, TEST)
-                                        \o (IF n.items[j].optional_vars.k = "~" THEN <<>> ELSE <<T("as")>> \o R(n.items[j].optional_vars, p \o <<"items", j, "optional_vars">>, BOR))])
+                                        <<B(p \o <<"items", j>>)>>
+                                        \o R(n.items[j].context_expr, p \o <<"items", j, "context_expr">>, TEST)
+                                        \o (IF n.items[j].optional_vars.k = "~" THEN <<>> ELSE <<T("as")>> \o R(n.items[j].optional_vars, p \o <<"items", j, "optional_vars">>, BOR))
+                                        \o <<E(p \o <<"items", j>>)>>])
+                                  \o (IF n.parItems THEN <<T(")")>> ELSE <<>>)
                                   \o RBody(n.body, p, "body"))
      [] n.k \in {"Try", "TryStar"} -> compound(<<T("try")>> \o RBody(n.body, p, "body")
                                   \o Cat([j \in 1..Len(n.handlers) |->
@@ -544,8 +549,10 @@ MkFor == On("For") /\ \E nb \in 1..1, ne \in 0..1, asy \in BOOLEAN : Can(2 + nb 
 \* with items: context [as target]
 MkWithItem == On("With") /\ \E hv \in BOOLEAN : LET n == IF hv THEN 2 ELSE 1 IN Can(n) /\ CatsAre(n, {"expr"}) /\ (hv => IsTarget(Trees(n)[2]))
               /\ Reduce(n, Ent("witem", [k |-> "withitem", context_expr |-> Trees(n)[1], optional_vars |-> IF hv THEN SetCtx(Trees(n)[2], "Store") ELSE None]))
-MkWith == On("With") /\ \E ni \in 1..2, asy \in BOOLEAN : Can(ni + 1) /\ (\A j \in 1..ni : Top(ni + 1)[j].cat = "witem") /\ Top(ni + 1)[ni + 1].cat = "stmt"
-              /\ Reduce(ni + 1, St([k |-> IF asy THEN "AsyncWith" ELSE "With", items |-> SubSeq(Trees(ni + 1), 1, ni), body |-> <<Trees(ni + 1)[ni + 1]>>]))
+MkWith == On("With") /\ \E ni \in 1..2, asy \in BOOLEAN, par \in BOOLEAN : Can(ni + 1) /\ (\A j \in 1..ni : Top(ni + 1)[j].cat = "witem") /\ Top(ni + 1)[ni + 1].cat = "stmt"
+              \* a single item without a target in parentheses would be a parenthesised expression: not a different spelling of the list
+              /\ (par => (ni = 2 \/ Trees(ni + 1)[1].optional_vars.k # "~")) /\ (par => ~asy)
+              /\ Reduce(ni + 1, St([k |-> IF asy THEN "AsyncWith" ELSE "With", items |-> SubSeq(Trees(ni + 1), 1, ni), body |-> <<Trees(ni + 1)[ni + 1]>>, parItems |-> par]))
 MkHandler == On("Try") /\ \E form \in {"bare", "type", "as"} : LET n == IF form = "bare" THEN 1 ELSE 2 IN
               /\ Can(n) /\ Top(n)[n].cat = "stmt" /\ (n = 2 => Top(n)[1].cat = "expr")
               /\ Reduce(n, Ent("handler", [k |-> "ExceptHandler", type |-> IF form = "bare" THEN None ELSE Trees(n)[1],
